@@ -33,17 +33,32 @@ type HistResult struct {
 	Steps       int              `json:"steps"`
 	Checks      int              `json:"checks"`
 	Restarts    int              `json:"restarts"`
+	Expiries    int              `json:"expiries"`     // Expire steps really waited for
+	ExpiredUsed int              `json:"expired_used"` // probes of a token after its expiry that had been accepted before it
+	WaitedMs    int64            `json:"waited_ms"`    // real time spent waiting for expiries
+	TimingSkips int              `json:"timing_skips"` // probes not judged because the expiry was too close
 	Divergences []HistDivergence `json:"divergences"`
 	Errors      []string         `json:"errors"`
 }
 
 type histTok struct {
 	tok, jti string
-	epoch    int  // signing key generation the token was issued under
-	revoked  bool // a revocation marker is in memory
-	revDisk  bool // ... and a snapshot / compaction wrote it to disk
-	revLost  bool // the marker was only in memory when a restart happened
+	epoch    int       // signing key generation the token was issued under
+	revoked  bool      // a revocation marker is in memory
+	revDisk  bool      // ... and a snapshot / compaction wrote it to disk
+	revLost  bool      // the marker was only in memory when a restart happened
+	short    bool      // issued with a lifetime of a few seconds
+	exp      time.Time // ... its expiry
+	expired  bool      // an Expire step waited past exp
 }
+
+// lifetime of a short-lived token: exp is cut to whole seconds by the JWT library, so the token
+// lives between shortLife-1s and shortLife. A probe that must be accepted is only judged while
+// at least expiryGuard is left (a slow machine must not turn into a false alarm).
+const (
+	shortLife   = 3 * time.Second
+	expiryGuard = 400 * time.Millisecond
+)
 
 func runHist(p Profile, bs []Behaviour) *HistResult {
 	res := &HistResult{Divergences: []HistDivergence{}, Errors: []string{}}
@@ -91,6 +106,37 @@ func runOneHist(b *Behaviour, res *HistResult) error {
 				return err
 			}
 			toks[t] = &histTok{tok: tok, jti: jti, epoch: epoch}
+		case "IssueShort":
+			// the server only issues 90 day tokens: sign the same claims with the signer clone
+			priv, err := node.signerClone()
+			if err != nil {
+				return err
+			}
+			now := time.Now()
+			exp := time.Unix(now.Add(shortLife).Unix(), 0)
+			jti := fmt.Sprintf("short-%s-%d", t, now.UnixNano())
+			tok, err := signES256(priv, es256Header, claims("read", []string{"*"}, jti, now.Add(-2*time.Second), exp))
+			if err != nil {
+				return err
+			}
+			toks[t] = &histTok{tok: tok, jti: jti, epoch: epoch, short: true, exp: exp}
+		case "Expire":
+			var until time.Time
+			for _, ht := range toks {
+				if ht.short && !ht.expired {
+					ht.expired = true
+					if ht.exp.After(until) {
+						until = ht.exp
+					}
+				}
+			}
+			// the library rejects from now >= exp on
+			if d := time.Until(until.Add(150 * time.Millisecond)); d > 0 {
+				progress()
+				time.Sleep(d)
+				res.WaitedMs += d.Milliseconds()
+			}
+			res.Expiries++
 		case "Revoke":
 			ht := toks[t]
 			if ht == nil {
@@ -165,8 +211,15 @@ func runOneHist(b *Behaviour, res *HistResult) error {
 			if want == "unissued" || ht == nil {
 				continue
 			}
+			if ht.short && !ht.expired && time.Until(ht.exp) < expiryGuard {
+				res.TimingSkips++ // too close to (or past) the expiry to say what the answer has to be
+				continue
+			}
 			code, body := node.do(Req{Method: "GET", Path: "/vector/indexes/hx", Auth: bearer(ht.tok)})
 			res.Checks++
+			if ht.expired {
+				res.ExpiredUsed++
+			}
 			got := "serve"
 			if code == 401 || code == 403 {
 				got = "deny"
@@ -175,7 +228,9 @@ func runOneHist(b *Behaviour, res *HistResult) error {
 				continue
 			}
 			kind, cause := "valid_token_rejected", "unexplained"
-			if want == "deny" {
+			if want == "deny" && ht.expired && !ht.revoked && !ht.revLost {
+				kind = "expired_token_accepted"
+			} else if want == "deny" {
 				kind = "revoked_token_accepted"
 				if ht.revLost {
 					cause = "revocation_not_persisted"
